@@ -1159,7 +1159,10 @@ def run_crash_cases_size(ctx, direct_modes, n_elems):
             elif r['status'] not in ('ok', 'killed') and r['status'] not in (
                     'ChunkNotFound', 'StoreUnavailable', 'BadChunk', 'S3ObjectNotFound'):
                 v = f"a failed put was reported as {r['status']}, not a chunk-store error"
-            elif r['inject'] and 'error=' in r['inject'] and r['status'] == 'ok' and not r['inject'].startswith('close'):
+            elif r['inject'] and 'error=' in r['inject'] and r['status'] == 'ok' and \
+                    not (r['inject'].startswith('close') and not r['direct']):
+                # (a failing close(2) of the direct-write descriptor is how NFS / quota file systems deliver write-back
+                # errors: it must fail the put as a failing write does)
                 v = f"an injected {r['inject']} failure was swallowed: put_chunk reported success"
             # correspondence with the model
             bad_tok = [t for t, _ in r['ops'] if t.startswith('X:')]
